@@ -7,8 +7,8 @@ CONSTANTS
   MaxIn = 2
   MaxOut = 2
   MaxExtraOut = 1
-  AllowNone = TRUE
-  LeafChoices <- LeafThorough
+  AllowNone = FALSE
+  LeafChoices <- LeafExtra
   Kinds = {"graph", "function"}
   MaxOutsCard = 9
   EmitOn = TRUE
